@@ -29,6 +29,10 @@
 (***************************************************************************)
 EXTENDS Naturals, FiniteSets
 
+\* JudgeServes = FALSE: GrowthServes / RecvResolves are not judged (second pass over scenarios with
+\* a known serving defect, so that the data-integrity clauses are still checked there)
+CONSTANT JudgeServes
+
 VARIABLES gcfg,   \* [strategy, initial, palign, maxloans, maxborrow]
           out,    \* loans that are out: set of [n, len, addr]
           sent,   \* set of [n, len] sent and not yet received
@@ -61,8 +65,8 @@ Loan(e) ==
          /\ gviol' = GLatch("LoanAligned", e.addr % gcfg.palign # 0)
          /\ gwhy' = GBlame(e.addr % gcfg.palign # 0, e)
          /\ UNCHANGED <<gcfg, sent, held>>
-    ELSE /\ gviol' = GLatch("GrowthServes", ~LoanErrApplies(e.len, e.r))
-         /\ gwhy' = GBlame(~LoanErrApplies(e.len, e.r), e)
+    ELSE /\ gviol' = GLatch("GrowthServes", JudgeServes /\ ~LoanErrApplies(e.len, e.r))
+         /\ gwhy' = GBlame(JudgeServes /\ ~LoanErrApplies(e.len, e.r), e)
          /\ UNCHANGED <<gcfg, out, sent, held>>
 
 PCheck(e) ==
@@ -75,14 +79,16 @@ Send(e) ==
     /\ \E x \in out : x.n = e.n
     /\ out' = {x \in out : x.n # e.n}
     /\ sent' = IF e.r = "ok" THEN sent \cup {[n |-> e.n, len |-> e.len]} ELSE sent
-    /\ gviol' = GLatch("RecvResolves", e.r # "ok")
-    /\ gwhy' = GBlame(e.r # "ok", e)
+    /\ gviol' = GLatch("RecvResolves", JudgeServes /\ e.r # "ok")
+    /\ gwhy' = GBlame(JudgeServes /\ e.r # "ok", e)
     /\ UNCHANGED <<gcfg, held>>
 
 Recv(e) ==
-    LET good == e.r = "ok" /\ e.ok = 1 /\ [n |-> e.n, len |-> e.len] \in sent IN
-    /\ gviol' = GLatch("RecvResolves", ~good)
-    /\ gwhy' = GBlame(~good, e)
+    LET good == e.r = "ok" /\ e.ok = 1 /\ [n |-> e.n, len |-> e.len] \in sent
+        \* bytes / length of a sample that WAS received are judged in both passes
+        bad == IF JudgeServes THEN ~good ELSE (e.r = "ok" /\ ~good) IN
+    /\ gviol' = GLatch("RecvResolves", bad)
+    /\ gwhy' = GBlame(bad, e)
     /\ sent' = {x \in sent : x.n # e.n}
     /\ held' = IF e.r = "ok" THEN held \cup {[n |-> e.n, len |-> e.len, addr |-> e.addr]} ELSE held
     /\ UNCHANGED <<gcfg, out>>
